@@ -509,6 +509,7 @@ def run(ctx: Ctx):
                               "(observable: solution shape, ordered selections, objective, iterations, evaluations, status)",
                               {"kind": "case", "case": case, "impl_out": out, "model_out": model[-1500:],
                                "lemma": "Cases/C07/corr_*.v corr"}, no_input=True)
+    if (VERIF / "harness" / "props" / "C07_deep.py").exists(): ctx.c07_cases = (metas, coq_cases); __import__("harness.props.C07_deep", fromlist=["run_part"]).run_part(ctx)  # noqa: E701,E702
 
 
 def mutate(rng, case):
